@@ -230,6 +230,23 @@ def step (st : St) (op implObs : String) : St × String × List String :=
           | .done => "ok" | .skip => "skip" | .pick none => "none" | .pick (some (_, af)) => "piece-af" ++ boolStr af
           | .web none => "none" | .web (some _) => "range"))
         let st := if outs.length > 1 then addTag st "branch:choice-among-equals" else st
+        let st := match o, ob with
+          | .pick p, .pick (some (i, af)) =>
+            let pc := s.pieces i
+            addTag st ("branch:pick:" ++
+              (if downloadingWebseed s then (if pc.webseed.isSome then "peer-steals-from-webseed" else "last-of-smallest-gap")
+               else if !pc.requested.isEmpty then (if s1.endgame then "endgame-duplicate" else "stalled-rerequest")
+               else if s.sequential && !(s.peers p).choking && (pc.head || pc.tail) then "file-edge"
+               else if af && (s.peers p).choking then "allowed-fast-while-choked"
+               else if af && !s.sequential then "allowed-fast-unchoked"
+               else if s.sequential then "sequential" else "rarest"))
+          | .pickweb _, .web (some (b, e)) =>
+            addTag st ("branch:pickweb:" ++
+              (if (findGaps s).isEmpty then "steal-from-webseed"
+               else if s.sequential && e = b + 1 && (s.pieces b).tail then "sequential-tail"
+               else if s.sequential then "first-gap" else "largest-gap") ++ (if e > b + 1 then "-long" else ""))
+          | .wok i false, _ => if (s.pieces i).webseed.isSome then addTag st "branch:wok:truncates-webseed-range" else st
+          | _, _ => st
         let st := if s1.endgame then addTag st "branch:endgame" else st
         ({ st with model := some s1, impl := implSt }, showObs ob ++ " " ++ dump s1, viol)
       | some (.error m) => ({ st with dead := true, impl := implSt }, "panic:" ++ panicKind m, viol)
